@@ -161,6 +161,7 @@ func cmdCheck(args []string) int {
 		return 2
 	}
 	cfg := RunConfig{Prop: *prop, Tier: *tier, TimeoutS: 20, Workers: 6, Verbose: *verbose, DumpObl: *dumpObl}
+	cfg.Known = loadKnownFindings(filepath.Join(*verif, "known_findings.json"))
 	if *tier == "thorough" {
 		cfg.TimeoutS = 60
 		cfg.All = true
